@@ -253,7 +253,8 @@ def run(ctx):
         if key not in seen and info["applicable"] and info["walks"] > 0:
             seen.add(key)
             ctx.count(nontrivial=1)
-            ctx.sample({"case": case, "n": n, "walk_assignments": info["walks"], "one": [list(w) for w in sorted(ref.values())[0]]}, limit=3)
+            one = [list(w) for w in sorted(ref.values())[0]] if ref else None
+            ctx.sample({"case": case, "n": n, "walk_assignments": info["walks"], "one": one}, limit=3)
     ctx.cov["input_distribution"] = dict(sorted(dist.items()))
     ctx.cov["rule"] = ("random construction histories of the sequence formulation (graph handed to the constructor, arcs added through "
                        "the object, everything through the object, no depot call, depot moved after arcs), 1-4 customers, windows in 0..8, "
